@@ -1,2 +1,13 @@
 import TephraProps.C20
-#print axioms Tephra.Props.C20_clip_start
+#print axioms Tephra.Props.C20_clipped
+#print axioms Tephra.Props.C20_window_defined
+#print axioms Tephra.Props.C20_window_extent
+#print axioms Tephra.Props.C20_window_nav
+#print axioms Tephra.Props.C20_window_widen
+#print axioms Tephra.Props.C20_window_split
+#print axioms Tephra.Props.C20_window_split_anyfuel
+#print axioms Tephra.Props.C20_window_prev_partial
+#print axioms Tephra.Props.C20_window_prevLineEnd_partial
+#print axioms Tephra.Props.C20_finding_F13c
+#print axioms Tephra.Props.C20_window_prev_statement_false
+#print axioms Tephra.Props.C20_owned_roundtrip
